@@ -14,7 +14,7 @@ def hist_key(h):
 
 
 def seq_project(run, proj, histories, u=None, step_oracles=(), theorems=(), kernel_sample=0,
-                state_filter=None, stop_after=8):
+                state_filter=None, stop_after=8, retrieve_bound=False):
     """Run histories on model and implementation; report disagreements and oracle violations."""
     u = u or Universe()
     histories = list(histories)
@@ -31,6 +31,14 @@ def seq_project(run, proj, histories, u=None, step_oracles=(), theorems=(), kern
         prev = [dict()]
 
         def after(im, c, r, st, prev=prev, viol=viol, trackers=trackers):
+            if retrieve_bound:
+                # C04 search: every bound pid whose object exists is retrievable with the bound bytes
+                bind, lists, objs, _, _ = oracles.refs_of(st)
+                for p, cid in bind.items():
+                    if cid in objs and p.isdigit():
+                        got = im.call({"op": "ro", "p": int(p)})
+                        if got != "ok:bytes:" + st["O" + cid]:
+                            viol.append((len(viol), token_line(c), "retrieve_object(%s) gives %s while bound to object %s" % (p, got, cid)))
             for t in trackers:
                 f = t.step if hasattr(t, "step") else t
                 for b in f(c, r, prev[0], st):
@@ -112,4 +120,84 @@ def c05(run):
                 theorems=["inv_step", "delete_total"], kernel_sample=8 if quick else 40)
 
 
-CHECKS = {"C05": c05}
+# ------------------------------------------------------------------ C03 / C04 / C06 / C11
+
+def c03(run):
+    rng = random.Random(run.seed)
+    quick = run.tier == "quick"
+    hs = [[{"op": "so", "p": 1, "b": 7, "n": 1}, {"op": "so", "p": 2, "b": 8, "n": 1}, {"op": "so", "p": 1, "b": 8, "n": 1}],
+          [{"op": "so", "p": 1, "b": 7, "n": 1}, {"op": "so", "p": 2, "b": 8, "n": 1}, {"op": "tag", "p": 1, "c": 8}],
+          [{"op": "tag", "p": 1, "c": 100}, {"op": "so", "p": 2, "b": 7, "n": 1}, {"op": "tag", "p": 1, "c": 7}]]
+    hs += gen_histories(rng, "refs", 200 if quick else 2000, 150 if quick else 2000, 10 if quick else 30)
+    seq_project(run, "P-seq[C03]", hs, step_oracles=(oracles.rebind_rejected,),
+                theorems=["C03_rebind_rejected", "C03_binding_changes_only_by_delete"], kernel_sample=5 if quick else 30)
+
+
+def retrieve_all_oracle():
+    """C04 search: after every step retrieve_object of every bound pid yields the bound bytes."""
+    return None
+
+
+def c04(run):
+    rng = random.Random(run.seed)
+    quick = run.tier == "quick"
+    hs = [[{"op": "so", "p": 1, "b": 7, "n": 1}, {"op": "so", "p": 2, "b": 7, "n": 1},
+           {"op": "dii", "c": 7, "sz": "n", "pre": True, "ok": False}, {"op": "del", "p": 1}, {"op": "ro", "p": 2}]]
+    hs += gen_histories(rng, "all", 150 if quick else 1500, 150 if quick else 2000, 12 if quick else 30,
+                        contents={7: 1, 8: 1}, pids=(1, 2, 3))
+    seq_project(run, "P-seq[C04]", hs,
+                step_oracles=(oracles.referenced_stable, oracles.last_delete_and_guard),
+                theorems=["C04_referenced_object_stable_present", "C04_last_delete_removes", "C04_del_invalid_guard"],
+                kernel_sample=5 if quick else 30, retrieve_bound=True)
+
+
+def c06(run):
+    rng = random.Random(run.seed)
+    quick = run.tier == "quick"
+    hs = []
+    # the grid: content absent / present unreferenced / present referenced  x  validation data
+    for state in ([], [{"op": "so", "p": None, "b": 7, "n": 1}], [{"op": "so", "p": 3, "b": 7, "n": 1}]):
+        for sz, ck in (("n", "o"), ("n", "b"), ("o", "n"), ("b", "n"), ("o", "o"), ("b", "o"), ("o", "b")):
+            for _ in range(2 if quick else 12):
+                hs.append([dict(c) for c in state] + [{"op": "so", "p": 1, "b": 7, "n": 1, "sz": sz, "ck": ck}, {"op": "ro", "p": 1}])
+        if state:
+            for sz in ("n", "o", "b"):
+                for pre in (True, False):
+                    for ok in (True, False):
+                        for _ in range(1 if quick else 6):
+                            hs.append([dict(c) for c in state] + [{"op": "dii", "c": 7, "sz": sz, "pre": pre, "ok": ok}])
+    for h in hs:
+        for c in h:
+            seq.decorate(rng, c)
+    hs += gen_histories(rng, "valid", 60 if quick else 600, 80 if quick else 1000, 8 if quick else 20)
+    seq_project(run, "P-seq[C06]", hs, step_oracles=(oracles.verdict_exact,),
+                theorems=["verdict_iff", "invalid_store_pure", "del_invalid_guard"], kernel_sample=5 if quick else 30)
+
+
+def c11(run):
+    rng = random.Random(run.seed)
+    quick = run.tier == "quick"
+    from universe import Universe, DEFAULT_NS
+    # formats: default, explicit-equal-to-default (token 0 both), two others; pids whose
+    # concatenations with formats coincide: ('ab','c') and ('a','bc')
+    u = Universe(pids={1: "ab", 2: "a", 3: "pid-3"}, fmts={0: DEFAULT_NS, 1: "c", 2: "bc", 3: ""})
+    A = seq.alphabet("meta", pids=(1, 2), fmts=(0, 1, 2, 3), versions=(1, 2))
+    A += [{"op": "sm", "p": 1, "f": 1, "v": 3, "n": 3}, {"op": "sm", "p": 2, "f": 2, "v": 0, "n": 0},
+          {"op": "sm", "p": 1, "f": 0, "v": 1, "n": 1, "fnone": True}, {"op": "rm", "p": 1, "f": 0, "fnone": True},
+          {"op": "so", "p": 1, "b": 7, "n": 1}, {"op": "so", "p": 2, "b": 7, "n": 1}]
+    hs = [[{"op": "sm", "p": 1, "f": 1, "v": 1, "n": 1}, {"op": "sm", "p": 2, "f": 2, "v": 2, "n": 1},
+           {"op": "rm", "p": 1, "f": 1}, {"op": "dm", "p": 1, "f": 1}, {"op": "rm", "p": 2, "f": 2}],
+          [{"op": "so", "p": 1, "b": 7, "n": 1}, {"op": "so", "p": 2, "b": 7, "n": 1}, {"op": "sm", "p": 1, "f": 0, "v": 1, "n": 1},
+           {"op": "sm", "p": 1, "f": 1, "v": 2, "n": 1}, {"op": "del", "p": 1}, {"op": "rm", "p": 1, "f": 0}],
+          [{"op": "sm", "p": 1, "f": 0, "v": 1, "n": 1}, {"op": "sm", "p": 1, "f": 1, "v": 2, "n": 1},
+           {"op": "dm", "p": 1, "f": 0}, {"op": "rm", "p": 1, "f": 1}]]
+    pairs = [[dict(a), dict(b)] for a in A for b in A]
+    rng.shuffle(pairs)
+    hs += pairs[:100 if quick else 1200]
+    for _ in range(200 if quick else 2500):
+        hs.append(seq.random_history(rng, A, rng.randint(3, 12 if quick else 30)))
+    seq_project(run, "P-seq[C11]", hs, u=u, step_oracles=(oracles.MetaTracker,),
+                theorems=["C11_meta_roundtrip", "C11_meta_frame", "C11_delete_all_own_only"], kernel_sample=5 if quick else 30)
+
+
+CHECKS = {"C05": c05, "C03": c03, "C04": c04, "C06": c06, "C11": c11}
